@@ -178,6 +178,12 @@ impl ExecutorInner {
         // In case this executor is nested in another one, reset the counter of in-flight messages.
         let msg_count_stash = channel::THREAD_MSG_COUNT.replace(self.context.msg_count);
 
+        // Likewise, stash the ID of the model currently polled by the outer
+        // executor, if any: it is overwritten each time a model of this
+        // executor is polled and must be restored so that a later panic of the
+        // outer model is still attributed to it.
+        let model_id_stash = CURRENT_MODEL_ID.take();
+
         let result = SIMULATION_CONTEXT.set(&self.simulation_context, || {
             ACTIVE_TASKS.set(&self.active_tasks, || {
                 EXECUTOR_CONTEXT.set(&self.context, || {
@@ -199,10 +205,11 @@ impl ExecutorInner {
 
         // Return the panic payload, if any.
         if let Err(payload) = result {
-            let model_id = CURRENT_MODEL_ID.take();
+            let model_id = CURRENT_MODEL_ID.replace(model_id_stash);
 
             return Err(ExecutorError::Panic(model_id, payload));
         }
+        CURRENT_MODEL_ID.set(model_id_stash);
 
         // Check for unprocessed messages.
         self.context.msg_count = channel::THREAD_MSG_COUNT.replace(msg_count_stash);
